@@ -15,8 +15,8 @@ def declare(reg, eng):
     reg.contract("atexit.register", params=["fn"], modifies=[], effect="atexit.register")
     reg.contract("atexit.unregister", params=["fn"], modifies=[], effect="atexit.unregister")
     reg.contract("signal.signal", params=["sig", "handler"], modifies=[], effect="signal.signal")
-    reg.contract("os.register_at_fork", params=[], defaults={}, modifies=[])
-    reg.contracts["os.register_at_fork"]["params"] = ["after_in_child"]
+    reg.contract("os.register_at_fork", params=["before", "after_in_parent", "after_in_child"],
+                 defaults={"before": "None", "after_in_parent": "None", "after_in_child": "None"}, modifies=[], effect="register_at_fork")
     reg.contract("os.chdir", params=["d"], modifies=[], raises={"OSError": {"when": []}})
     reg.contract("os.getpid", params=[], returns="int", modifies=[])
     reg.contract("sys.exit", params=["code"], never_returns=True, modifies=[], raises={"SystemExit": {"when": [], "value": "code"}})
@@ -81,6 +81,11 @@ def declare(reg, eng):
                                             ("C10", "not isfile(self.pidfile) or effect_count('atexit.register') > effect_count('atexit.unregister')"),
                                         ]}},
                  effect_guards={
+                     # the handlers and the exit cleanup are dropped in forked *children* only, never in the job process itself
+                     "register_at_fork": [("C10", "isnone(_arg0) and isnone(_arg1)")],
+                     # the runner writes nothing but its markers (written by handle_error / touch): in particular never a lock file,
+                     # whose rewriting would release the POSIX lock held on it
+                     "write_text": [(("C05", "C10"), "False")], "file.write": [(("C05", "C10"), "False")],
                      "touch": [("C10", "_arg0 == self.donepath and effect('body')"),
                                # the success marker is written while every job lock is still held: a process waiting for the lock
                                # sees the marker as soon as it gets the lock (otherwise it would run the body again)
